@@ -59,6 +59,15 @@ def template_classes(maxside, nmax):
     return out, total
 
 
+#: names of the 1st, 2nd and 3rd template of a class: the generated
+#: instances carry the template's name plus "n", whatever that name is
+TNAMES = ("t", "un", "n")
+
+
+def tname(key):
+    return TNAMES[key[4] % 3] if len(key) > 4 else "t"
+
+
 def check_instance(key, rows_t, inst, x, cache, bads):
     """All clauses on one decoded instance."""
     W, H, n, m = key[:4]
@@ -69,7 +78,8 @@ def check_instance(key, rows_t, inst, x, cache, bads):
         items += [(int(r[0]), int(r[1]))] * int(r[2])
     sig = None
     detail = None
-    if inst.name != "tn" or inst.bin_width != W or inst.bin_height != H:
+    if inst.name != tname(key) + "n" or inst.bin_width != W \
+            or inst.bin_height != H:
         sig, detail = "decoder|name or bin size differs", (inst.name,
                                                             inst.bin_width,
                                                             inst.bin_height)
@@ -110,7 +120,7 @@ def job(a):
     from moptipyapps.binpacking2d.instgen.instance_space import InstanceSpace
     key, rows_t, d, alpha, shard, nshards = a
     W, H, n, m = key[:4]
-    tmpl = C.make_instance(W, H, rows_t, name="t")
+    tmpl = C.make_instance(W, H, rows_t, name=tname(key))
     sp = InstanceSpace(tmpl)
     dec = InstanceDecoder(sp)
     cache = {}
@@ -170,7 +180,7 @@ def objective_job(a):
     from moptipyapps.binpacking2d.instgen.instance_space import InstanceSpace
     key, rows_t, item_sets = a
     W, H, n, m = key[:4]
-    tmpl = C.make_instance(W, H, rows_t, name="t")
+    tmpl = C.make_instance(W, H, rows_t, name=tname(key))
     sp = InstanceSpace(tmpl)
     bads = []
     err = Errors(sp)
@@ -189,7 +199,7 @@ def objective_job(a):
                 rows[-1][2] += 1
             else:
                 rows.append([it[0], it[1], 1])
-        insts.append(C.make_instance(W, H, rows, name="tn"))
+        insts.append(C.make_instance(W, H, rows, name=tname(key) + "n"))
     prev = None
     for inst in insts:
         vals = {}
@@ -369,7 +379,7 @@ def replay(ctx: Ctx, rep: dict) -> bool:
     )
     from moptipyapps.binpacking2d.instgen.instance_space import InstanceSpace
     key = tuple(rep["key"])
-    tmpl = C.make_instance(key[0], key[1], rep["template"], name="t")
+    tmpl = C.make_instance(key[0], key[1], rep["template"], name=tname(key))
     sp = InstanceSpace(tmpl)
     if not rep["x"]:
         print("objective case; re-run the check")
